@@ -241,6 +241,32 @@ pub fn run(cfg: &Cfg) {
         let rule = gen_rule(&mut r, &names);
         round_trip::<ArtifactRule>(&mut sink, "ArtifactRule", &rule);
         rule_dec_case(&mut sink, &serde_json::to_value(&rule).unwrap(), "valid");
+        // the same rule with its keywords in other letter cases (all of them, and one at a time): refused, or
+        // read as written - never rewritten into the upper-case spelling
+        if let Value::Array(toks) = serde_json::to_value(&rule).unwrap() {
+            const KW: [&str; 12] = ["CREATE", "DELETE", "MODIFY", "ALLOW", "REQUIRE", "DISALLOW", "MATCH", "IN", "WITH", "FROM", "MATERIALS", "PRODUCTS"];
+            let is_kw = |t: &Value| t.as_str().map_or(false, |x| KW.contains(&x));
+            let fold = |t: &Value, how: usize| -> Value {
+                let x = t.as_str().unwrap_or("");
+                Value::String(match how {
+                    0 => x.to_lowercase(),
+                    1 => x.chars().enumerate().map(|(i, c)| if i == 0 { c } else { c.to_ascii_lowercase() }).collect(),
+                    _ => x.chars().enumerate().map(|(i, c)| if i % 2 == 0 { c.to_ascii_lowercase() } else { c }).collect(),
+                })
+            };
+            for how in 0..3 {
+                let all: Vec<Value> = toks.iter().enumerate().map(|(i, t)| if is_kw(t) && (i == 0 || i % 2 == 0 || toks.len() > 2) { fold(t, how) } else { t.clone() }).collect();
+                rule_dec_case(&mut sink, &Value::Array(all), "keyword-case");
+            }
+            for (i, t) in toks.iter().enumerate() {
+                // (positions that can hold a keyword: the first, and inside MATCH the even ones and the one after WITH)
+                if is_kw(t) && (i == 0 || toks[0] == "MATCH") {
+                    let mut one = toks.clone();
+                    one[i] = fold(t, i % 3);
+                    rule_dec_case(&mut sink, &Value::Array(one), "keyword-case");
+                }
+            }
+        }
         let bp = gen_byproducts(&mut r, false);
         round_trip::<ByProducts>(&mut sink, "ByProducts", &bp);
         bp_dec_case(&mut sink, &serde_json::to_value(&bp).unwrap(), "valid");
